@@ -500,7 +500,10 @@ impl<'a> Ctx<'a> {
                 let s = seq(self.expr(&c.func, Use::Value), seqs(c.args.iter().map(|a| self.expr(a, Use::Value))));
                 self.finish_unknown(e, s, u)
             }
-            Expr::Path(_) => {
+            Expr::Path(p) => {
+                if p.path.segments.len() >= 2 && self.prop.contains(&p.path.segments.last().unwrap().ident.to_string()) {
+                    return self.other(e, "propagating function used as a value (function pointer)");
+                }
                 if u == Use::Result {
                     Sk::Ret
                 } else {
@@ -563,6 +566,26 @@ fn type_str(t: &Type) -> String {
     s.replace(" :: ", "::").replace(" < ", "<").replace(" >", ">").replace("< ", "<").replace(" ,", ",").replace("& '", "&'")
 }
 
+/// fn items nested inside a function body are functions of their own
+fn collect_nested(file: &str, block: &Block, out: &mut Collected) {
+    struct V<'a> {
+        file: &'a str,
+        found: Vec<ItemFn>,
+    }
+    impl<'ast, 'a> syn::visit::Visit<'ast> for V<'a> {
+        fn visit_item_fn(&mut self, f: &'ast ItemFn) {
+            self.found.push(f.clone());
+            syn::visit::visit_item_fn(self, f);
+        }
+    }
+    let mut v = V { file, found: Vec::new() };
+    syn::visit::visit_block(&mut v, block);
+    let _ = v.file;
+    for f in v.found {
+        out.fns.push((file.to_string(), format!("{}:{} nested fn", file, line_of(&f.sig.ident)), f.sig.clone(), Some((*f.block).clone())));
+    }
+}
+
 fn collect_items(file: &str, items: &[Item], out: &mut Collected) {
     for it in items {
         match it {
@@ -571,6 +594,7 @@ fn collect_items(file: &str, items: &[Item], out: &mut Collected) {
                     continue;
                 }
                 out.fns.push((file.to_string(), format!("{}:{} fn", file, line_of(&f.sig.ident)), f.sig.clone(), Some((*f.block).clone())));
+                collect_nested(file, &f.block, out);
             }
             Item::Impl(im) => {
                 if is_cfg_test(&im.attrs) {
@@ -593,6 +617,7 @@ fn collect_items(file: &str, items: &[Item], out: &mut Collected) {
                                 continue;
                             }
                             out.fns.push((file.to_string(), format!("{}:{} {}", file, line_of(&f.sig.ident), head), f.sig.clone(), Some(f.block.clone())));
+                            collect_nested(file, &f.block, out);
                         }
                         ImplItem::Macro(m) => out.macros.push((file.to_string(), line_of(m), m.mac.tokens.clone())),
                         _ => {}
@@ -612,6 +637,9 @@ fn collect_items(file: &str, items: &[Item], out: &mut Collected) {
                                 f.sig.clone(),
                                 f.default.clone(),
                             ));
+                            if let Some(b) = &f.default {
+                                collect_nested(file, b, out);
+                            }
                         }
                         TraitItem::Macro(m) => out.macros.push((file.to_string(), line_of(m), m.mac.tokens.clone())),
                         _ => {}
